@@ -16,7 +16,7 @@ import vlib  # noqa: E402
 
 MODULES = {
     "C01": "p_unify", "C04": "p_unify", "C11": "p_unify", "C13": "p_unify",
-    "C06": "p_visit", "C07": "p_scopes", "C08": "p_rbtree", "C02": "p_make", "C09": "p_make", "C03": "p_strings", "C10": "p_specs", "C12": "p_regions", "C14": "p_seq", "C15": "p_seq", "C16": "p_subst", "C17": "p_printer", "C18": "p_printer",
+    "C05": "p_stable", "C06": "p_visit", "C07": "p_scopes", "C08": "p_rbtree", "C02": "p_make", "C09": "p_make", "C03": "p_strings", "C10": "p_specs", "C12": "p_regions", "C14": "p_seq", "C15": "p_seq", "C16": "p_subst", "C17": "p_printer", "C19": "p_ledger", "C20": "p_threads", "C18": "p_printer",
 }
 
 
